@@ -41,6 +41,7 @@ const (
 	SC  = "SC"  // SendCancel
 	X   = "X"   // Cancel
 	RM  = "rM"  // remote message
+	RMU = "rMu" // remote message that the local decoder rejects
 	RCS = "rCS" // remote CloseSend
 	RC  = "rC"  // remote Close
 	RE  = "rE"  // remote Error
@@ -51,7 +52,7 @@ const (
 	RF  = "rF"  // packet for a foreign stream id
 )
 
-var alphabet = []string{S, W, R, CS, C, E, SC, X, RM, RCS, RC, RE, RX, RI, RU, RUC, RF}
+var alphabet = []string{S, W, R, CS, C, E, SC, X, RM, RMU, RCS, RC, RE, RX, RI, RU, RUC, RF}
 
 var errCancel = errors.New("verif cancel cause")
 var errApp = drpcerr.WithCode(errors.New("application failure"), 77)
@@ -268,6 +269,9 @@ func (r *run) remote(sym string) drpcwire.Packet {
 	case RM:
 		pkt.Kind = drpcwire.KindMessage
 		pkt.Data = payload.Make(1, 1, 0, uint32(r.rmsg), 30)
+	case RMU:
+		pkt.Kind = drpcwire.KindMessage
+		pkt.Data = payload.Undecodable(10 + int(r.rmsg))
 	case RCS:
 		pkt.Kind = drpcwire.KindCloseSend
 	case RC:
@@ -311,7 +315,7 @@ func (r *run) applyRemote(sym string, pkt drpcwire.Packet) (proceeds bool) {
 		}
 		return true
 	}
-	if sym == RM {
+	if sym == RM || sym == RMU {
 		if m.recvSet {
 			return true // dropped: the buffer is closed
 		}
@@ -662,7 +666,12 @@ func (r *run) observe(i int, sym string, exp *emitExp, parked bool) {
 			rec.judged = true
 			switch rec.want {
 			case xMsg:
-				if rec.op.Err != nil || !bytes.Equal(rec.got, rec.data) {
+				if len(rec.data) >= 2 && rec.data[0] == 0xFE && rec.data[1] == 0xFE {
+					// the receive consumes the message and reports the decoder's error; nothing else changes
+					if !errors.Is(rec.op.Err, payload.ErrUndecodable) {
+						r.failf("%s: %s#%d should have reported the decoder's error for the undecodable message; got err=%s", where, rec.sym, rec.idx, rig.ErrStr(rec.op.Err))
+					}
+				} else if rec.op.Err != nil || !bytes.Equal(rec.got, rec.data) {
 					r.failf("%s: %s#%d should have received the delivered message; got err=%s data=%d bytes", where, rec.sym, rec.idx, rig.ErrStr(rec.op.Err), len(rec.got))
 				}
 			case "busy":
@@ -935,12 +944,21 @@ func runSequence(id string, seq []string, parkStep int) runner.Result {
 	// teardown: cancel releases every blocked goroutine
 	handledWant := 0
 	_ = handledWant
-	r.st.Cancel(errors.New("teardown"))
+	// (from its own goroutine: if the stream under test is wedged, the verdict below must still be reached)
+	td := rig.Go("teardown", func() (interface{}, error) { r.st.Cancel(errors.New("teardown")); return nil, nil })
 	close(r.pkts)
 	st, _ := census.QuiesceOr(r.rdDone, rig.Watchdog)
 	sig := strings.Join(seq, " ")
 	if parkStep >= 0 {
 		sig += fmt.Sprintf(" park@%d", parkStep)
+	}
+	if len(r.fails) > 0 {
+		res := runner.Violation(id, "state-machine:"+failKey(r.fails[0]), strings.Join(r.fails, "\n"))
+		res.Sig = sig
+		return res
+	}
+	if !td.Wait() {
+		return runner.Inconcl(id, "teardown: Cancel did not return")
 	}
 	if st != "ready" {
 		return runner.Inconcl(id, "teardown did not release the reader goroutine: "+st)
@@ -1130,7 +1148,7 @@ func gen(tier string, seed uint64) []runner.Scenario {
 			seq[k] = alphabet[r.Intn(len(alphabet))]
 			// bias towards non-terminal symbols so sequences stay interesting
 			if r.Intn(3) == 0 {
-				seq[k] = []string{S, W, R, RM, RUC, RF, CS, RCS}[r.Intn(8)]
+				seq[k] = []string{S, W, R, RM, RUC, RF, CS, RCS, RMU}[r.Intn(9)]
 			}
 		}
 		park := -1
@@ -1148,7 +1166,7 @@ func main() {
 	runner.Main(runner.Check{
 		Property: "C03",
 		Level:    "exploration",
-		Rule:     "one case = one sequence over the 16-symbol alphabet {MsgSend, MsgRecv, CloseSend, Close, SendError, SendCancel, Cancel, remote Message/CloseSend/Close/Error/Cancel/Invoke/unknown/unknown+control/foreign-id}, optionally with the write of one emitting step parked inside the io.Writer while the remaining steps are issued. All sequences of length <= 3 (quick) / <= 4 (thorough) are enumerated, all parked variants of those lengths, plus seeded sequences of length 5-8. After every step the process is quiescent and results, emitted frames (parsed by the reference codec), Terminated/Finished/Context signals are compared with the reference automaton. Non-trivial: length >= 2. Distinct: by sequence and park position.",
+		Rule:     "one case = one sequence over the 18-symbol alphabet {MsgSend, RawWrite, MsgRecv, CloseSend, Close, SendError, SendCancel, Cancel, remote Message/undecodable Message/CloseSend/Close/Error/Cancel/Invoke/unknown/unknown+control/foreign-id}, optionally with the write of one emitting step parked inside the io.Writer while the remaining steps are issued. All sequences of length <= 3 (quick) / <= 4 (thorough) are enumerated, all parked variants of those lengths, plus seeded sequences of length 5-8. After every step the process is quiescent and results, emitted frames (parsed by the reference codec), Terminated/Finished/Context signals are compared with the reference automaton. Non-trivial: length >= 2. Distinct: by sequence and park position.",
 		Assumptions: []string{
 			"remote packets are delivered by one reader goroutine in order, as a manager does: a packet queued behind a message that nobody receives is not delivered",
 			"asserted strictly: idempotent terminal calls, no emission after termination, EOF on send after remote error/cancel (when the local side had not already half-closed), EOF on receive after remote half-close, remote error text and code on receive after remote error, the cancel cause on receive after local cancel, unknown control packets ignored, finished <=> terminated and no call in flight, Context().Err()==context.Canceled exactly when finished; elsewhere only nil vs non-nil",
